@@ -65,7 +65,13 @@ def beginsweep(ctx):
 
 
 def run_c02(ctx):
-    return [gassweep(ctx, 'succeeded-under-gas-limit-with-other-effect')] + run_ledger(ctx)
+    # the shared generator has no OLVM traffic (its accounts hold no Ethereum keys); the olvm engine
+    # (C17) mixes OLVM and native transactions on the same accounts and watches the block total: its
+    # value monitors are C02's predicate where the EVM object cache sits between the two ledgers
+    # (seed C02-finalise-keeps-readonly-objects was missed without it)
+    return [gassweep(ctx, 'succeeded-under-gas-limit-with-other-effect'),
+            only(run_olh(ctx, 'olvm', twin_args(ctx, ['-histories', '60', '-blocks', '12', '-maxtxs', '8'], ['-histories', '1200', '-blocks', '20', '-maxtxs', '10'])),
+                 ['olvm-tx-changed-the-total', 'native-and-evm-balance-differ', 'sender-debit-is-not-gas-plus-value', 'app-closed-by-panic'])] + run_ledger(ctx)
 
 
 def run_ledger(ctx):
@@ -74,7 +80,13 @@ def run_ledger(ctx):
 
 
 def run_c18(ctx):
+    # evm: a panic of the state adapter where go-ethereum's own state does not panic is, inside a
+    # transaction, a closed application (seed C18-journal-revert-stale-index needs a contract that
+    # creates, reads another account and reverts: the operation-level engine of C16 reaches that)
+    corpus16 = os.path.join(ctx['root'], 'corpus', 'C16')
     return [gassweep(ctx, 'gas-window-closes-application,gas-limit-below-begin-block-closes-application,app-closed-by-panic'),
+            only(run_olh(ctx, 'evm', twin_args(ctx, ['-cases', '2000', '-maxops', '40', '-programs', '200', '-corpus', corpus16], ['-cases', '20000', '-maxops', '40', '-programs', '2000', '-corpus', corpus16])),
+                 ['journal-dirty-index-stale', 'adapter-panics-where-reference-does-not']),
             run_olh(ctx, 'nocrash', twin_args(ctx, ['-seeds', '12', '-fuzz', '150', '-parallel', '12'], ['-seeds', '400', '-fuzz', '600', '-parallel', '14']))]
 
 
@@ -254,7 +266,7 @@ PROPS = {
     'C09': dict(
         lean_modules=['OLP.Props.C09', 'OLP.Props.C09Facts', 'OLP.Props.C09Funcs'],
         namespaces=['OLP.Props.C09'],
-        required_theorems=['consumeStrict_is_source', 'consumeAlways_is_source', 'refusal_iff_isEnough', 'getLeft_is_room', 'get_returns_view', 'deleted_reads_absent', 'discard_invisible', 'commit_persists_block',
+        required_theorems=['consume_monotone', 'refusal_is_permanent', 'left_pos_iff_accepted', 'consumeStrict_is_source', 'consumeAlways_is_source', 'refusal_iff_isEnough', 'getLeft_is_room', 'get_returns_view', 'deleted_reads_absent', 'discard_invisible', 'commit_persists_block',
                            'old_versions_immutable', 'reopen_returns_last_commit', 'erase_reads_same_state',
                            'commit_log_first_write_order', 'gas_refusal', 'gas_refusal_in_session',
                            'get_exactly', 'get_returns_view_or_gas_error', 'get_gas_error_iff', 'no_stale_read',
@@ -280,7 +292,7 @@ PROPS = {
     ),
     'C20': dict(
         lean_modules=['OLP.Props.C20', 'OLP.Props.C20Funcs'], namespaces=['OLP.Props.C20'],
-        required_theorems=['blocksFor_is_source', 'calculateExpiry_is_blocksFor', 'calculateRenewal_is_blocksFor', 'expiry_exact_in_source', 'executed_tx_is_validated', 'changes_need_valid_signature', 'at_most_one_owner', 'create_needs_absent_name', 'subs_follow_parent', 'sub_expires_with_parent',
+        required_theorems=['renewal_exact_in_source', 'blocks_monotone_in_amount', 'changeable_is_source', 'expiredAt_is_source', 'resetAfterSale_is_source', 'purchase_expiry_lower_bounds', 'blocksFor_is_source', 'calculateExpiry_is_blocksFor', 'calculateRenewal_is_blocksFor', 'expiry_exact_in_source', 'executed_tx_is_validated', 'changes_need_valid_signature', 'at_most_one_owner', 'create_needs_absent_name', 'subs_follow_parent', 'sub_expires_with_parent',
                            'pending_sub_deleted_by_purchase', 
                            'pending_sub_follows_renewal', 'failed_tx_changes_nothing', 'changes_need_owner_or_purchase',
                            'changes_need_root_owner', 'changes_need_root_owner_reachable', 'commits_are_invisible',
@@ -366,8 +378,8 @@ PROPS = {
         ],
         model_limits='the frozen-owner guard of WITHDRAW goes over the validator records the store iteration enumerates (records that existed at the last commit; a record created in the running block cannot be frozen, STAKE refuses a frozen validator); fee handling and every other balance movement are environment (Tx.credit)'),
     'C13': dict(
-        lean_modules=['OLP.Props.C13', 'OLP.Props.C13Arith', 'OLP.Props.C13Funcs'], namespaces=['OLP.Props.C13'],
-        required_theorems=['rewardFor_is_source', 'delegSplit_amounts_are_source', 'delegSplit_credits_are_source', 'recalc_amount_is_source', 'consumed_le_pulled', 'credited_le_consumed', 'credited_le_pulled', 'absent_not_credited', 'consumed_eq_recorded',
+        lean_modules=['OLP.Props.C13', 'OLP.Props.C13Arith', 'OLP.Props.C13Funcs', 'OLP.Props.C13Split'], namespaces=['OLP.Props.C13'],
+        required_theorems=['delegation_share_le_total', 'commission_chain', 'delegator_credits_le_share', 'validator_shares_le_total', 'per_block_times_blocks_le_left', 'rewardFor_is_source', 'delegSplit_amounts_are_source', 'delegSplit_credits_are_source', 'recalc_amount_is_source', 'consumed_le_pulled', 'credited_le_consumed', 'credited_le_pulled', 'absent_not_credited', 'consumed_eq_recorded',
                            'block_keeps_nonneg', 'chunk_matures_once', 'withdraw_le_matured', 'validator_withdraw_le_matured',
                            'withdraw_never_raises_matured', 'wrapped_withdraw_raises_matured',
                            'forecast_zero_iff_schedule_over', 'pulled_le_year_left', 'burnout_capped_by_pool', 'till_changes_only_at_cycle_end',
@@ -437,8 +449,8 @@ PROPS = {
         ],
         model_limits='the monitor checks "drops out of the validator set" on the application\'s own election (update list and status records) at every height and, for validators that keep a record, on the simulated Tendermint set after 6 consecutive blocks IN WHICH SOMEBODY IS ELECTED: with nobody elected the application keeps the last set (c5836bc, Tendermint cannot run with an empty set), so a convicted last validator stays in Tendermint\'s set until somebody else qualifies (by design). Errors of balance.AddToAddress / delayHandleUnstake inside the tally (the `continue` paths after them) are not modelled (never observed); the refused-debit branch of the slash (MinusFromAddress is all-or-nothing since 7abde80, charged to the current stake address since ebb3d1d) is modelled and proved but not reached by generated histories (the staking handlers keep the three records equal). The nine regression scenarios of the repaired defects (corpus/C19, harness/apph/alleg_script.go) run first in every check and must end in the repaired outcome without any monitor signature.'),
     'C14': dict(
-        lean_modules=['OLP.Props.C14', 'OLP.Props.C14Arith', 'OLP.Props.C14Funcs'], namespaces=['OLP.Props.C14'],
-        required_theorems=['pct_is_source', 'source_share_le_total', 'wf_init', 'wf_reachable', 'active_copy_is_exclusive', 'stage_monotone', 'stage_monotone_history',
+        lean_modules=['OLP.Props.C14', 'OLP.Props.C14Arith', 'OLP.Props.C14Funcs', 'OLP.Props.C14Goal'], namespaces=['OLP.Props.C14'],
+        required_theorems=['fund_reaching_goal_starts_voting', 'still_funding_means_below_goal', 'pct_is_source', 'source_share_le_total', 'wf_init', 'wf_reachable', 'active_copy_is_exclusive', 'stage_monotone', 'stage_monotone_history',
                            'voting_starts_only_at_goal_before_deadline', 'expire_only_after_deadline', 'endblock_expiry_only_after_deadline',
                            'outcome_follows_snapshot_votes', 'open_vote_means_undecided', 'snapshot_fixed_when_voting_begins',
                            'config_applied_only_for_passed_proposal', 'config_applied_at_most_once',
@@ -459,8 +471,8 @@ PROPS = {
         ],
         model_limits='one model step = one handler execution with the fee as an input (price x gas used, read from the DeliverTx response); signatures, fee-price validation and gas metering belong to C04/C09; Validate is modelled for the amount signs and the validator check only; headline / description strings are not modelled; a fund or vote key deleted and re-created inside one block is modelled as freshly uncommitted (unreachable: records are deleted only at finalisation); EndBlock expiry / finalisation order across different proposals is the key order of the internal queue store (modelled by sorting ids); the internal queue itself is not observable and is tied through its effect at EndBlock (the `end` step receives the items as of BeginBlock); branches never reached by the generator because earlier checks exclude them: statusNotCompleted, finalize-time invalidOptions / finalizeConfigUpdateFailed, configuration update failing validation at finalisation, gettingValidatorList, DeleteAllFunds error; a failed fee step (reached only by an almost empty payer) is reproduced with the price of one gas unit as the lower bound of the charge, because a failed transaction does not report its gas.'),
     'C10': dict(
-        lean_modules=['OLP.Props.C10'], namespaces=['OLP.Props.C10'],
-        required_theorems=['heap_pop_sorted', 'updates_sorted_by_pubkey', 'positive_update_rule', 'at_most_top_count', 'prefers_higher_stake',
+        lean_modules=['OLP.Props.C10', 'OLP.Props.C10Funcs'], namespaces=['OLP.Props.C10'],
+        required_theorems=['feeShare_formula', 'fee_shares_le_total', 'fee_share_nonneg', 'heap_pop_sorted', 'updates_sorted_by_pubkey', 'positive_update_rule', 'at_most_top_count', 'prefers_higher_stake',
                            'removal_only_last_active', 'removal_only_last_active_once', 'no_duplicate_keys', 'no_duplicate_keys_reachable',
                            'nobody_elected_no_updates', 'deletion_rule', 'frozen_not_elected', 'tm_accepts_single_block', 'inv_after_genesis',
                            'removals_name_members', 'tm_accepts_step', 'tm_accepts_all', 'members_keep_records', 'deletion_spares_pending_validators',
